@@ -25,18 +25,21 @@ Inductive rstat := ROk | REOF | RUEOF | RErr.
 Definition fin_data (f : fin) : bytes := match f with FDataEOF bs => bs | _ => [] end.
 Definition contents (r : script) : bytes := concat (chunks r) ++ fin_data (final r).
 
+(* blen c <=? n without walking the whole chunk (see Reader_proofs.fits_spec) *)
+Definition fits (n : Z) (c : bytes) : bool := match bdrop n c with [] => true | _ => false end.
+
 (* one Read into a buffer of n >= 1 bytes *)
 Definition read (n : Z) (r : script) : bytes * rstat * script :=
   match chunks r with
   | c :: cs =>
-      if blen c <=? n then (c, ROk, mkScript cs (final r))
+      if fits n c then (c, ROk, mkScript cs (final r))
       else (btake n c, ROk, mkScript (bdrop n c :: cs) (final r))
   | [] =>
       match final r with
       | FEOF => ([], REOF, r)
       | FErr => ([], RErr, r)
       | FDataEOF bs =>
-          if blen bs <=? n then (bs, REOF, mkScript [] FEOF)
+          if fits n bs then (bs, REOF, mkScript [] FEOF)
           else (btake n bs, ROk, mkScript [] (FDataEOF (bdrop n bs)))
       end
   end.
@@ -74,7 +77,8 @@ Fixpoint read_byte_aux (fuel : nat) (r : script) : option N * rstat * script :=
       | [] => match st with ROk => read_byte_aux fuel r' | _ => (None, st, r') end
       end
   end.
-Definition read_byte (r : script) := read_byte_aux (S (mu r)) r.
+(* an empty successful read always consumes an (empty) chunk: that many retries suffice *)
+Definition read_byte (r : script) := read_byte_aux (S (length (chunks r))) r.
 
 (* ioutil.ReadAll / fully reading consumer: everything up to EOF (nil error) or
    an error.  Buffer sizes do not influence the content. *)
